@@ -933,4 +933,177 @@ theorem emit_count : ∀ d t, Inv d t → ∀ x y p,
       rintro ⟨c, e, h⟩
       obtain ⟨_, a, _, b⟩ := hBin k c e h
       exact hno ⟨a, b, Or.inr ⟨c, e, h⟩⟩
+/-! ### every emitted pair selects something; core masks are 18 bit -/
+
+theorem block_point (x0 y0 lv i : Nat) (hl : lv ≤ 3) (hx : x0 % scale lv = 0) (hy : y0 % scale lv = 0)
+    (hi : i < 16) : ∃ x y, inSq x0 y0 lv x y ∧ subIndex lv x y = i := by
+  refine ⟨x0 + scale lv / 4 * (i % 4), y0 + scale lv / 4 * (i / 4), ?_⟩
+  rcases lv_cases hl with h | h | h | h <;> subst h <;>
+    simp only [inSq, subIndex_eq, scale, shift, Nat.reducePow, Nat.reduceSub, Nat.reduceMul,
+      Nat.reduceAdd, Nat.reduceDiv, Nat.div_one] at hx hy ⊢ <;> omega
+
+theorem emit_props : ∀ d t, Inv d t → ∀ pr, pr ∈ emit d t →
+    (∃ x y p, sel pr x y p = true) ∧ pr.2 < 2 ^ 18
+  | 0, t, h, _, _ => by simp [Inv] at h
+  | d + 1, .mk x0 y0 lv ls subs, hI, pr, hpr => by
+    obtain ⟨⟨h1, hx, hy, hx1, hy1, hlen, hlt, hsl, hch⟩, hnf⟩ := hI
+    rw [emit_succ, List.mem_append] at hpr
+    rcases hpr with hpr | hpr
+    · rw [List.mem_map] at hpr
+      obtain ⟨⟨m, cm⟩, hmem, rfl⟩ := hpr
+      have hmem' : (m, cm) ∈ groupCores ls 0 [] :=
+        (List.mergeSort_perm _ pairLe).mem_iff.1 hmem
+      have G := groupCores_ok ls
+      rw [hlen] at G
+      obtain ⟨hm0, ⟨q, hq⟩, hb3⟩ := G.2.1 m cm hmem'
+      have hq' := (hb3 q).1 hq
+      have hm16 : m < 2 ^ 16 := by rw [← getD_of_getElem? ls q m hq'.2]; exact hlt q
+      obtain ⟨i, hi⟩ := Nat.exists_testBit_of_ne_zero hm0
+      have hi16 : i < 16 := by
+        by_cases h : i < 16
+        · exact h
+        · have := Nat.testBit_lt_two_pow (Nat.lt_of_lt_of_le hm16 (Nat.pow_le_pow_right (by decide) (Nat.le_of_not_lt h)))
+          rw [this] at hi; exact Bool.noConfusion hi
+      obtain ⟨x, y, hin, hsub⟩ := block_point x0 y0 lv i (by omega) hx hy hi16
+      constructor
+      · refine ⟨x, y, q, ?_⟩
+        simp only [sel, Bool.and_eq_true]
+        exact ⟨(selects_code x0 y0 lv m x y (by omega) hx hy hx1 hy1 hm16).2 ⟨hin, by rw [hsub]; exact hi⟩, hq⟩
+      · apply Nat.lt_pow_two_of_testBit
+        intro j hj
+        cases hc : cm.testBit j with
+        | false => rfl
+        | true => have := ((hb3 j).1 hc).1; omega
+    · by_cases hl3 : lv < 3
+      · rw [if_pos hl3, List.mem_flatMap] at hpr
+        obtain ⟨i, _, hi⟩ := hpr
+        unfold childEmit at hi
+        cases hsub : subs.getD i none with
+        | none => rw [hsub] at hi; simp at hi
+        | some c =>
+          rw [hsub] at hi
+          exact emit_props d c (hch i c hsub).2.2.1 pr hi
+      · rw [if_neg hl3] at hpr; simp at hpr
+
+/-! ### the root and the insertion loop -/
+
+def RootOK (t : RTree) : Prop := Inv 4 t ∧ t.x0 = 0 ∧ t.y0 = 0 ∧ t.lv = 0
+
+/-- the documented domain: chips 0..255 x 0..255, cores 0..17 -/
+def InRange (c : Int × Int × Int) : Prop :=
+  0 ≤ c.1 ∧ c.1 < 256 ∧ 0 ≤ c.2.1 ∧ c.2.1 < 256 ∧ 0 ≤ c.2.2 ∧ c.2.2 < 18
+
+def toNat3 (c : Int × Int × Int) : Nat × Nat × Nat := (c.1.toNat, c.2.1.toNat, c.2.2.toNat)
+
+theorem rootOK_new : RootOK (RTree.new 0 0 0) :=
+  ⟨Inv_new 3 0 0 0 rfl (by decide) (by decide) (by decide) (by decide), rfl, rfl, rfl⟩
+
+theorem addRoot_spec (t : RTree) (c : Int × Int × Int) (ht : RootOK t) (hc : InRange c) :
+    ∃ t', addRoot t c.1 c.2.1 c.2.2 = .ok t' ∧ RootOK t' ∧
+      ∀ x y p, holds 4 t' x y p ↔ (holds 4 t x y p ∨ (x, y, p) = toNat3 c) := by
+  obtain ⟨hI, h0x, h0y, h0l⟩ := ht
+  obtain ⟨a1, a2, b1, b2, c1, c2⟩ := hc
+  have hin : inSq t.x0 t.y0 t.lv c.1.toNat c.2.1.toNat := by
+    rw [h0x, h0y, h0l]; simp only [inSq, scale]; omega
+  obtain ⟨t', full, heq, hI', hx', hy', hl', hfull, hhold, _⟩ :=
+    addCore_spec 4 t c.1.toNat c.2.1.toNat c.2.2.toNat hI hin (by omega)
+  have hf : full = false := hfull h0l
+  subst hf
+  refine ⟨t', ?_, ⟨hI', by rw [hx', h0x], by rw [hy', h0y], by rw [hl', h0l]⟩, ?_⟩
+  · unfold addRoot
+    have : ¬ (c.1 < 0 ∨ c.2.1 < 0 ∨ c.2.2 < 0) := by omega
+    rw [if_neg this, heq]
+  · intro x y p
+    have := hhold x y p
+    simp only [Bool.false_eq_true, false_and, or_false] at this
+    rw [this]
+    simp only [toNat3, Prod.mk.injEq]
+
+theorem addRoot_err (t : RTree) (c : Int × Int × Int) (ht : RootOK t) (hc : ¬ InRange c) :
+    addRoot t c.1 c.2.1 c.2.2 = .error .valueError := by
+  obtain ⟨hI, h0x, h0y, h0l⟩ := ht
+  unfold addRoot
+  by_cases hneg : c.1 < 0 ∨ c.2.1 < 0 ∨ c.2.2 < 0
+  · rw [if_pos hneg]
+  · rw [if_neg hneg]
+    obtain ⟨x0, y0, lv, ls, subs⟩ := t
+    simp only [RTree.x0, RTree.y0, RTree.lv] at h0x h0y h0l
+    subst h0x; subst h0y; subst h0l
+    rw [addCore]
+    have : c.2.2.toNat > 17 ∨ c.1.toNat < 0 ∨ c.1.toNat ≥ 0 + scale 0 ∨ c.2.1.toNat < 0 ∨
+        c.2.1.toNat ≥ 0 + scale 0 := by
+      simp only [InRange, scale] at hc ⊢; omega
+    rw [if_pos this]
+
+theorem foldlM_spec : ∀ (ts : List (Int × Int × Int)) (t0 : RTree), RootOK t0 → (∀ c, c ∈ ts → InRange c) →
+    ∃ t, ts.foldlM (fun t c => addRoot t c.1 c.2.1 c.2.2) t0 = .ok t ∧ RootOK t ∧
+      ∀ x y p, holds 4 t x y p ↔ (holds 4 t0 x y p ∨ (x, y, p) ∈ ts.map toNat3)
+  | [], t0, h0, _ => ⟨t0, rfl, h0, by simp⟩
+  | c :: ts, t0, h0, hr => by
+    obtain ⟨t1, e1, h1, hh1⟩ := addRoot_spec t0 c h0 (hr c List.mem_cons_self)
+    obtain ⟨t, e, h, hh⟩ := foldlM_spec ts t1 h1 (fun c' hc' => hr c' (List.mem_cons_of_mem _ hc'))
+    refine ⟨t, ?_, h, ?_⟩
+    · rw [List.foldlM_cons, e1]; exact e
+    · intro x y p
+      rw [hh, hh1, List.map_cons, List.mem_cons, or_assoc]
+
+theorem foldlM_err : ∀ (ts : List (Int × Int × Int)) (t0 : RTree), RootOK t0 → (∃ c, c ∈ ts ∧ ¬ InRange c) →
+    ts.foldlM (fun t c => addRoot t c.1 c.2.1 c.2.2) t0 = .error .valueError
+  | [], _, _, ⟨c, h, _⟩ => by simp at h
+  | c :: ts, t0, h0, hex => by
+    rw [List.foldlM_cons]
+    by_cases hc : InRange c
+    · obtain ⟨t1, e1, h1, _⟩ := addRoot_spec t0 c h0 hc
+      rw [e1]
+      apply foldlM_err ts t1 h1
+      obtain ⟨c', hm, hn⟩ := hex
+      rcases List.mem_cons.1 hm with rfl | hm
+      · exact absurd hc hn
+      · exact ⟨c', hm, hn⟩
+    · rw [addRoot_err t0 c h0 hc]; rfl
+
+/-! ### sorting -/
+
+theorem sortPairs_sorted (l : List (Nat × Nat)) :
+    (sortPairs l).Pairwise (fun a b => pairLe a b = true) := by
+  apply List.pairwise_mergeSort
+  · intro a b c h1 h2
+    simp only [pairLe, Bool.or_eq_true, Bool.and_eq_true, decide_eq_true_eq, beq_iff_eq] at *
+    omega
+  · intro a b
+    simp only [pairLe, Bool.or_eq_true, Bool.and_eq_true, decide_eq_true_eq, beq_iff_eq]
+    omega
+
+theorem strict_of_sorted_nodup (l : List (Nat × Nat))
+    (h1 : l.Pairwise (fun a b => pairLe a b = true)) (h2 : l.Nodup) : StrictlyIncreasing l := by
+  unfold StrictlyIncreasing
+  have := h1.and h2
+  refine this.imp ?_
+  intro a b ⟨hle, hne⟩
+  simp only [pairLe, Bool.or_eq_true, Bool.and_eq_true, decide_eq_true_eq, beq_iff_eq] at hle
+  unfold pairLt
+  have : a.1 ≠ b.1 ∨ a.2 ≠ b.2 := by
+    by_cases h : a.1 = b.1
+    · right; intro h'; exact hne (Prod.ext h h')
+    · left; exact h
+  omega
+
+/-- a list in which every element selects something and nothing is selected twice has no repetition -/
+theorem nodup_of_exact (out : List (Nat × Nat))
+    (hne : ∀ pr, pr ∈ out → ∃ x y p, sel pr x y p = true)
+    (hle : ∀ x y p, countSel out x y p ≤ 1) : out.Nodup := by
+  rw [List.nodup_iff_count]
+  intro a
+  by_cases ha : a ∈ out
+  · obtain ⟨x, y, p, hs⟩ := hne a ha
+    refine Nat.le_trans ?_ (hle x y p)
+    rw [List.count_eq_countP]
+    unfold countSel
+    apply List.countP_mono_left
+    intro pr _ h
+    have : pr = a := by simpa using h
+    rw [this]; exact hs
+  · have : List.count a out = 0 := List.count_eq_zero.2 ha
+    omega
+
 end Rig.C12
